@@ -3,7 +3,7 @@
    values      : as in Signac.Wire
    strings     : S<hex utf8>
    project     : P<n> job*          job := J S<id> <sp value> F<m> (S<rel path> <content>)*
-                 content := s (state point file of this job) | b<nat> (other bytes)
+                 content := s (state point file of this job) | b<nat> (other bytes) | d (empty sub-directory)
    path spec   : none | id | fmt N<n> piece* | call N<n> S<path>*
                  piece := L<hex> | K<hex key> | Q<hex key> | I | A | U<hex sep>
    schema      : none | str S<schema string> | tab N<n> (S<rel path> <value>)*
@@ -55,6 +55,7 @@ def pContent (sp : JVal) : Toks → Option (Content × Toks)
   | t :: ts =>
     match t.toList with
     | ['s'] => some (.sp sp, ts)
+    | ['d'] => some (.dir, ts)
     | 'b' :: n => (String.ofList n).toNat?.map (fun k => (.blob k, ts))
     | _ => none
   | [] => none
@@ -132,6 +133,7 @@ def hexPath (cs : Comps) : String := toHex (joinSlash cs)
 def showContent (id : String) : Content → String
   | .sp v => if calcId v = id then "s" else "x"
   | .blob n => "b" ++ toString n
+  | .dir => "d"
 
 def memberLe (a b : String × String) : Bool := decide (a.1 < b.1) || (a.1 == b.1 && decide (a.2 ≤ b.2))
 
@@ -145,22 +147,27 @@ def showProject (P : Project) : String :=
   " ".intercalate (js.map (fun j =>
     " ".intercalate (["J", toHex j.id, toString j.files.length] ++ showFiles j.id j.files)))
 
-/-- physical components of every exported path; `none` if one is outside the modelled domain
-    (absolute, leaves the target, or is not in normal form) -/
+/-- physical components of every exported path (`none` cannot happen after `exportPaths` accepted) -/
 def physAll (ds : List String) : Option (List Comps) :=
   match mapExcept (fun d =>
       match physComps d with
-      | some cs => if d = "" ∨ normpath d = d then Except.ok cs else Except.error ()
+      | some cs => Except.ok cs
       | none => Except.error ()) ds with
   | .ok r => some r
   | .error _ => none
 
-/-- sorted member list; a state point file is shown as `s` when it is the one of some exported job -/
+/-- sorted member list; a state point file is shown as `s` when it is the one of some exported job.
+    zip: files only; tar: files + every directory member (`d`); dir: files + empty directories (`e`) -/
 def memberList (t : Target) (P : Project) (ds : List Comps) : List String :=
   let showC : Content → String
     | .sp v => if P.any (fun j => calcId v = j.id) then "s" else "x"
     | .blob n => "b" ++ toString n
-  let fl := (exportMembers P ds).map (fun fc => (joinSlash fc.1, showC fc.2))
+    | .dir => "e"
+  let all := match t with
+    | .zip => zipMembers P ds
+    | .tar => (exportMembers P ds).filter (fun fc => !isDirEntry fc.2)
+    | .dir => exportMembers P ds
+  let fl := all.map (fun fc => (joinSlash fc.1, showC fc.2))
   let dl := match t with
     | .tar => (exportDirMembers P ds).map (fun d => (joinSlash d, "d"))
     | _ => []
